@@ -496,6 +496,7 @@ def check(db, rep):
     C03.type_algebra(db, r9)
     note['typing_rule_cases'] = C03.typing_rules(db, r9, rep.tier)
     C03.recursion_typing(db, r9)
+    C03.scope_rules(db, r9)           # a re-declared name carries the type of its new binding: the evaluator's structure accesses follow that type
     for k, v in note.items():
         rep.note(k, v)
 
